@@ -166,14 +166,16 @@ typedef Params<1, 8, 3, false, false, uint64_t> P2;
 typedef Params<2, 8, 2, true, false, uint32_t> P3;
 typedef Params<1, 4, 3, false, true, uint32_t> P4;
 typedef Params<2, 4, 2, true, true, uint32_t> P5;
-static const int NPARAMS = 6;
+typedef Params<1, 8, 5, true, false, uint32_t> P6;  // larger insertion-sort groups (cached insertion sort with >2 elements)
+static const int NPARAMS = 7;
 static const char* const PARAM_DESC[NPARAMS] = {
     "p0: TreeBits=1 smallsort=4 inssort=2 work_sharing rest_size=0 key=u32",
     "p1: TreeBits=2 smallsort=4 inssort=3 work_sharing rest_size=1 key=u64",
     "p2: TreeBits=1 smallsort=8 inssort=3 no_work_sharing rest_size=0 key=u64",
     "p3: TreeBits=2 smallsort=8 inssort=2 work_sharing rest_size=0 key=u32",
     "p4: TreeBits=1 smallsort=4 inssort=3 no_work_sharing rest_size=1 key=u32",
-    "p5: TreeBits=2 smallsort=4 inssort=2 work_sharing rest_size=1 key=u32"};
+    "p5: TreeBits=2 smallsort=4 inssort=2 work_sharing rest_size=1 key=u32",
+    "p6: TreeBits=1 smallsort=8 inssort=5 work_sharing rest_size=0 key=u32"};
 
 // one function per parameter set, each defined in its own TU (compile time)
 void run_p0(const Case&, FailFn);
@@ -182,6 +184,7 @@ void run_p2(const Case&, FailFn);
 void run_p3(const Case&, FailFn);
 void run_p4(const Case&, FailFn);
 void run_p5(const Case&, FailFn);
+void run_p6(const Case&, FailFn);
 
 inline void run_case(const Case& c, FailFn f) {
     switch (c.param) {
@@ -190,7 +193,8 @@ inline void run_case(const Case& c, FailFn f) {
     case 2: run_p2(c, f); break;
     case 3: run_p3(c, f); break;
     case 4: run_p4(c, f); break;
-    default: run_p5(c, f); break;
+    case 5: run_p5(c, f); break;
+    default: run_p6(c, f); break;
     }
 }
 
